@@ -22,9 +22,17 @@ def rand_name(rng, pool=None):
             base = [small_label(rng)] + base
         elif rng.random() < 0.3 and base:
             base = base[1:]
-        return base[:8]
+        return fit_name(base[:8])
     n = rng.choice([0, 1, 2, 2, 3, 3, 4])
-    return [small_label(rng) if rng.random() < 0.8 else rand_label(rng, rng.choice([1, 5, 20, 63])) for _ in range(n)]
+    return fit_name([small_label(rng) if rng.random() < 0.8 else rand_label(rng, rng.choice([1, 5, 20, 63])) for _ in range(n)])
+
+
+def fit_name(labels):
+    """a well-formed name has at most 255 octets on the wire (length octets and root included): drop leading labels
+    until it fits (the generated ASTs describe WELL-FORMED messages; over-long names are the names stream's business)"""
+    while sum(len(l) + 1 for l in labels) + 1 > 255:
+        labels = labels[1:]
+    return labels
 
 
 def rand_rdata(rng, ty, pool):
@@ -64,10 +72,10 @@ def rand_record(rng, pool, section):
     elif r < 0.80 and section == 2:
         ty = 41
     elif r < 0.9:
-        ty = rng.choice([0, 17, 29, 33, 99, 251, 256, 65535, 252, 255])
+        ty = rng.choice([0, 17, 29, 33, 99, 251, 256, 65535, 252, 255, 0x8001, 0x0101, 0x801c, 0x4005])
     else:
         ty = rng.choice(TYPED)
-    cl = 1 if rng.random() < 0.8 else rng.choice([0, 2, 3, 4, 5, 254, 255, 4096, 65535])
+    cl = 1 if rng.random() < 0.8 else rng.choice([0, 2, 3, 4, 5, 254, 255, 4096, 65535, 0x8001, 0x8001, 0x8003, 0x8004, 0x80ff, 0x7fff, 0x0101, 0x4001])
     ttl = rng.choice([0, 1, 60, 3600, 2 ** 31, 2 ** 32 - 1, rng.getrandbits(32)])
     owner = rand_name(rng, pool)
     if ty == 41:
